@@ -9,14 +9,30 @@
 // shortest operation history; histories are replayed from three default
 // constructed objects with real operations only (`--case bfs...##<history>`
 // and the trace validation at the end of the search).
+//
+// Besides {copy-construct, move-construct, copy-assign, move-assign, self-assign, reset(n), reset(), write} the alphabet
+// contains the in-place / state-caching operations of each class, with the model applying the mathematical operation:
+//   Vec: sort (S), += (P);  Mat: transpose() (T), invert() (I), A = inv(B) (J);
+//   SymMat: cholDec() (K), invert() (V), solve(rhs) (Q);  CovMat: cholDec() (K), solve (Q);  BandMat: K, Q, triDiag() (G).
+// They are enabled where the exact result stays in the small integer alphabet (unimodular matrices, integer LL' / LDL').
+// Raw member pointers that cache a buffer address (Mat::pentry, BandMat::addr_m_) are part of the state, abstracted to
+// {null, own buffer, buffer of object j, stale}; "stale" is materialised as a pointer to freed memory (ASan reports any use).
 #ifndef VERIF_LIBMC15_BFS_H
 #define VERIF_LIBMC15_BFS_H
 #include "libmc15_base.h"
 #include <deque>
 #include <unordered_map>
+#include <sanitizer/asan_interface.h>
 
 struct Shape { int a, b; };
-struct Raw { int sz = 0; bool nonnull = false; const void* rep = nullptr; std::vector<double> data; std::vector<int> f; };
+struct Raw { int sz = 0; bool nonnull = false; const void* rep = nullptr; std::vector<double> data; std::vector<int> f; std::vector<const void*> hp; std::vector<int> hk; };
+// a permanently poisoned block stands for "stale": any access through it is an ASan report, and it is never reallocated
+static double* dangling() { static double* d = [] { double* p = new double[8]; __asan_poison_memory_region(p, 8 * sizeof(double)); return p; }(); return d; }
+// kinds of cached pointers: 0 null, 1 own buffer, 2+j buffer of object j, 9 stale
+static void classify(std::vector<Raw>& raws) { for (size_t i = 0; i < raws.size(); i++) { raws[i].hk.clear(); for (const void* q : raws[i].hp) { int k = 9; if (!q) k = 0; else if (q == raws[i].rep) k = 1; else for (size_t j = 0; j < raws.size(); j++) if (j != i && raws[j].rep && q == raws[j].rep) { k = 2 + (int)j; break; } raws[i].hk.push_back(k); } } }
+static bool iinv(const IMat& M, IMat& R) { int n = M.r; I64 det = idet(M); if (det != 1 && det != -1) return false; R = IMat(n, n); if (n == 1) { R(0, 0) = det; return true; }
+  for (int i = 0; i < n; i++) for (int j = 0; j < n; j++) { std::vector<int> ri, ci; for (int k = 0; k < n; k++) { if (k != j) ri.push_back(k); if (k != i) ci.push_back(k); } IMat S(n - 1, n - 1); for (int a = 0; a < n - 1; a++) for (int b = 0; b < n - 1; b++) S(a, b) = M(ri[a], ci[b]); R(i, j) = (((i + j) & 1) ? -1 : 1) * idet(S) * det; } return true; }
+static bool within(const IMat& M, int lo, int hi) { for (I64 x : M.a) if (x < lo || x > hi) return false; return true; }
 struct Val { int a = 0, b = 0; std::vector<int> cells; bool moved = false; bool operator==(const Val& o) const { return a == o.a && b == o.b && cells == o.cells; } };
 
 template <class T> struct Tr;
@@ -40,6 +56,18 @@ template <> struct Tr<Vec> {
   static void write(Vec& v, const Val&, int k, double x) { v(k + 1) = x; }
   static Raw snap(const Vec& v) { Raw r; snap_mem(v, r); return r; }
   static Vec* poke(const Raw& r) { Vec* v = new Vec(); poke_mem(v, r); return v; }
+  static void setp(Vec&, int, void*) {}
+  static const char* iops(bool) { return "SP"; }
+  static bool ibin(char t) { return t == 'P'; }
+  static const char* iname(char t) { return t == 'S' ? "sort" : "plus-assign"; }
+  static bool ien(char t, const std::vector<Val>& val, int i, int j, int wmax) {
+    if (t == 'S') return true;
+    if (val[i].a != val[j].a || val[i].a == 0) return false;
+    for (int k = 0; k < val[i].a; k++) { int x = val[i].cells[k] + val[j].cells[k]; if (x < 0 || x > wmax) return false; }
+    return true;
+  }
+  static std::string iapply(char t, std::vector<Vec*>& ob, int i, int j, const std::vector<Val>&) { if (t == 'S') GNU_gama::sort(*ob[i]); else { Vec& src = *ob[j]; *ob[i] += src; } return ""; }
+  static void imodel(char t, std::vector<Val>& val, int i, int j) { if (t == 'S') std::sort(val[i].cells.begin(), val[i].cells.end()); else { std::vector<int> c = val[j].cells; for (size_t k = 0; k < c.size(); k++) val[i].cells[k] += c[k]; } }
   // value seen through the public API; false + why if the private fields are inconsistent
   static bool value(const Vec& v, const Raw& r, Val& out, std::string& why) {
     if (r.sz < 0 || r.sz > 64) { why = "sz " + std::to_string(r.sz); return false; }
@@ -52,14 +80,36 @@ template <> struct Tr<Vec> {
 };
 template <> struct Tr<Mat> {
   static const char* name() { return "Mat"; }
-  static std::vector<Shape> menu(int lvl) { std::vector<Shape> m = {{0, 0}, {0, 2}, {1, 1}, {1, 2}, {2, 1}, {2, 2}}; if (lvl >= 1) { m.push_back({1, 3}); m.push_back({3, 1}); m.push_back({2, 0}); } return m; }
+  static std::vector<Shape> menu(int lvl) {
+    if (lvl == 2) return {{0, 0}, {1, 1}, {2, 2}};                 // in-place configurations
+    if (lvl == 3) return {{0, 0}, {1, 1}};
+    if (lvl == 4) return {{0, 0}, {1, 1}, {2, 2}, {1, 2}, {2, 1}};
+    std::vector<Shape> m = {{0, 0}, {1, 1}, {1, 2}, {2, 1}, {2, 2}}; if (lvl >= 1) { m.push_back({0, 2}); m.push_back({2, 0}); m.push_back({1, 3}); m.push_back({3, 1}); } return m; }
   static Mat* fresh() { return new Mat(); }
   static void reset(Mat& v, Shape s) { v.reset(s.a, s.b); v.set_zero(); }
   static void reset0(Mat& v) { v.reset(); }
   static int ncells(const Val& v) { return v.a * v.b; }
   static Val zero(Shape s) { Val v; v.a = s.a; v.b = s.b; v.cells.assign(s.a * s.b, 0); return v; }
   static void write(Mat& v, const Val& m, int k, double x) { v(k / m.b + 1, k % m.b + 1) = x; }
-  static Raw snap(const Mat& v) { Raw r; snap_mem(v, r); r.f = {v.row_, v.col_}; return r; }
+  static Raw snap(const Mat& v) { Raw r; snap_mem(v, r); r.f = {v.row_, v.col_}; r.hp = {v.pentry}; return r; }
+  static void setp(Mat& v, int, void* q) { v.pentry = (double*)q; }
+  static const char* iops(bool inpl) { return inpl ? "TIJ" : "T"; }
+  static bool ibin(char t) { return t == 'J'; }
+  static const char* iname(char t) { return t == 'T' ? "transpose-in-place" : (t == 'I' ? "invert" : "assign-inv(B)"); }
+  static IMat dense(const Val& v) { IMat M(v.a, v.b); for (int k = 0; k < v.a * v.b; k++) M.a[k] = v.cells[k]; return M; }
+  static bool ien(char t, const std::vector<Val>& val, int i, int j, int) {
+    if (t == 'T') return true;
+    const Val& s = val[t == 'J' ? j : i]; if (s.a != s.b || s.a == 0) return false;
+    IMat R; return iinv(dense(s), R) && within(R, -1, 1);
+  }
+  static std::string iapply(char t, std::vector<Mat*>& ob, int i, int j, const std::vector<Val>&) {
+    if (t == 'T') ob[i]->transpose(); else if (t == 'I') ob[i]->invert(); else { Mat& src = *ob[j]; *ob[i] = GNU_gama::inv(src); }
+    return "";
+  }
+  static void imodel(char t, std::vector<Val>& val, int i, int j) {
+    if (t == 'T') { Val s = val[i]; val[i].a = s.b; val[i].b = s.a; for (int r = 0; r < s.a; r++) for (int c = 0; c < s.b; c++) val[i].cells[c * s.a + r] = s.cells[r * s.b + c]; return; }
+    Val s = val[t == 'J' ? j : i]; IMat R; iinv(dense(s), R); for (size_t k = 0; k < R.a.size(); k++) s.cells[k] = (int)R.a[k]; s.moved = false; val[i] = s;
+  }
   static Mat* poke(const Raw& r) { Mat* v = new Mat(); poke_mem(v, r); v->row_ = r.f[0]; v->col_ = r.f[1]; return v; }
   static bool value(const Mat& v, const Raw& r, Val& out, std::string& why) {
     if (r.f[0] < 0 || r.f[1] < 0 || r.sz != r.f[0] * r.f[1]) { why = "row_ " + std::to_string(r.f[0]) + " col_ " + std::to_string(r.f[1]) + " sz " + std::to_string(r.sz); return false; }
@@ -80,6 +130,43 @@ template <> struct Tr<SymMat> {
   static void write(SymMat& v, const Val&, int k, double x) { int i = 0; while ((i + 1) * (i + 2) / 2 <= k) i++; int j = k - i * (i + 1) / 2; if (k & 1) v(j + 1, i + 1) = x; else v(i + 1, j + 1) = x; }
   static Raw snap(const SymMat& v) { Raw r; snap_mem(v, r); r.f = {v.row_, v.col_, v.dim_, v.idf_}; return r; }
   static SymMat* poke(const Raw& r) { SymMat* v = new SymMat(); poke_mem(v, r); v->row_ = r.f[0]; v->col_ = r.f[1]; v->dim_ = r.f[2]; v->idf_ = r.f[3]; return v; }
+  static void setp(SymMat&, int, void*) {}
+  static const char* iops(bool inpl) { return inpl ? "KVQ" : ""; }
+  static bool ibin(char) { return false; }
+  static const char* iname(char t) { return t == 'K' ? "cholDec" : (t == 'V' ? "invert" : "solve"); }
+  static IMat dense(const Val& v) { IMat M(v.a, v.a); for (int i = 0; i < v.a; i++) for (int j = 0; j <= i; j++) M(i, j) = M(j, i) = v.cells[i * (i + 1) / 2 + j]; return M; }
+  // integer Cholesky factor A = L L' (false if A is not positive definite or the factor is not a small integer matrix)
+  static bool ichol(const Val& v, std::vector<int>& L) {
+    int d = v.a; if (d == 0) return false; IMat A = dense(v); if (!is_pd(A)) return false; L.assign(v.cells.size(), 0);
+    auto l = [&](int i, int j) -> int& { return L[i * (i + 1) / 2 + j]; };
+    for (int i = 0; i < d; i++) for (int j = 0; j <= i; j++) { I64 x = A(i, j); for (int k = 0; k < j; k++) x -= (I64)l(i, k) * l(j, k);
+      if (i == j) { int q = (int)llround(sqrt((double)x)); if (x <= 0 || (I64)q * q != x) return false; l(i, i) = q; } else { if (x % l(j, j)) return false; l(i, j) = (int)(x / l(j, j)); }
+      if (abs(l(i, j)) > 2) return false; }
+    return true;
+  }
+  static bool ien(char t, const std::vector<Val>& val, int i, int, int) {
+    const Val& v = val[i]; if (v.a == 0) return false; std::vector<int> L;
+    if (t == 'K') return ichol(v, L);
+    if (t == 'V') { IMat A = dense(v), R; return is_pd(A) && iinv(A, R) && within(R, -2, 2); }
+    for (int k = 0; k < v.a; k++) if (v.cells[k * (k + 1) / 2 + k] == 0) return false;
+    return true;
+  }
+  static std::string iapply(char t, std::vector<SymMat*>& ob, int i, int, const std::vector<Val>& val) {
+    if (t == 'K') { ob[i]->cholDec(); return ""; }
+    if (t == 'V') { ob[i]->invert(); return ""; }
+    // solve with the current contents taken as the factor L
+    const Val& v = val[i]; int d = v.a; Vec b(d); std::vector<LD> x(d); for (int k = 0; k < d; k++) { b(k + 1) = k + 1; x[k] = k + 1; }
+    static_cast<const SymMat&>(*ob[i]).solve(b);
+    auto l = [&](int r, int c) { return (LD)v.cells[r * (r + 1) / 2 + c]; };
+    for (int r = 0; r < d; r++) { for (int c = 0; c < r; c++) x[r] -= l(r, c) * x[c]; x[r] /= l(r, r); }
+    for (int r = d - 1; r >= 0; r--) { for (int c = r + 1; c < d; c++) x[r] -= l(c, r) * x[c]; x[r] /= l(r, r); }
+    for (int k = 0; k < d; k++) if (!(fabsl(x[k] - b(k + 1)) <= 1e-12L * std::max<LD>(1, fabsl(x[k])))) return "solve: x(" + std::to_string(k + 1) + ") = " + str(b(k + 1)) + " expected " + str((double)x[k]);
+    return "";
+  }
+  static void imodel(char t, std::vector<Val>& val, int i, int) {
+    if (t == 'K') { std::vector<int> L; ichol(val[i], L); val[i].cells = L; }
+    else if (t == 'V') { IMat R; iinv(dense(val[i]), R); for (int r = 0; r < val[i].a; r++) for (int c = 0; c <= r; c++) val[i].cells[r * (r + 1) / 2 + c] = (int)R(r, c); }
+  }
   static bool value(const SymMat& v, const Raw& r, Val& out, std::string& why) {
     int d = r.f[2];
     if (d < 0 || r.f[0] != d || r.f[1] != d || r.sz != d * (d + 1) / 2) { why = "row_ " + std::to_string(r.f[0]) + " col_ " + std::to_string(r.f[1]) + " dim_ " + std::to_string(d) + " sz " + std::to_string(r.sz); return false; }
@@ -90,7 +177,7 @@ template <> struct Tr<SymMat> {
   }
 };
 template <class BM, bool PAD> struct TrBand {
-  static std::vector<Shape> menu(int lvl) { std::vector<Shape> m = {{0, 0}, {1, 0}, {2, 0}, {2, 1}}; if (lvl >= 1) { m.push_back({3, 0}); m.push_back({3, 1}); m.push_back({3, 2}); } return m; }
+  static std::vector<Shape> menu(int lvl) { if (lvl == 3) return {{0, 0}, {2, 1}, {3, 2}}; std::vector<Shape> m = {{0, 0}, {1, 0}, {2, 0}, {2, 1}}; if (lvl >= 1) { m.push_back({3, 0}); m.push_back({3, 1}); m.push_back({3, 2}); } return m; }
   static BM* fresh() { return new BM(); }
   static void reset(BM& v, Shape s) { v.reset(s.a, s.b); v.set_zero(); }
   static void reset0(BM& v) { v.reset(); }
@@ -98,6 +185,37 @@ template <class BM, bool PAD> struct TrBand {
   static Val zero(Shape s) { Val v; v.a = s.a; v.b = s.b; v.cells.assign(ncells(v), 0); return v; }
   static void cellij(const Val& m, int k, int& i, int& j) { int t = 0; for (i = 0; i < m.a; i++) for (j = i; j < m.a && j <= i + m.b; j++, t++) if (t == k) return; }
   static void write(BM& v, const Val& m, int k, double x) { int i, j; cellij(m, k, i, j); if (k & 1) v(j + 1, i + 1) = x; else v(i + 1, j + 1) = x; }
+  static bool ibin(char) { return false; }
+  static const char* iname(char t) { return t == 'K' ? "cholDec" : (t == 'Q' ? "solve" : "triDiag"); }
+  static int cidx(const Val& m, int i, int j) { int t = 0; for (int r = 0; r < m.a; r++) for (int c = r; c < m.a && c <= r + m.b; c++, t++) if (r == i && c == j) return t; return -1; }
+  static IMat dense(const Val& v) { IMat M(v.a, v.a); int t = 0; for (int i = 0; i < v.a; i++) for (int j = i; j < v.a && j <= i + v.b; j++, t++) M(i, j) = M(j, i) = v.cells[t]; return M; }
+  // integer factor A = L D L' in band storage (D on the diagonal, L' above it)
+  static bool ildl(const Val& v, std::vector<int>& F) {
+    int d = v.a; if (d == 0) return false; IMat A = dense(v); if (!is_pd(A)) return false;
+    std::vector<std::vector<I64>> l(d, std::vector<I64>(d, 0)); std::vector<I64> dd(d, 0);
+    for (int i = 0; i < d; i++) { I64 x = A(i, i); for (int k = 0; k < i; k++) x -= l[i][k] * l[i][k] * dd[k]; if (x <= 0 || x > 2) return false; dd[i] = x;
+      for (int j = i + 1; j < d; j++) { I64 y = A(j, i); for (int k = 0; k < i; k++) y -= l[j][k] * l[i][k] * dd[k]; if (y % x) return false; l[j][i] = y / x; if (l[j][i] < -2 || l[j][i] > 2) return false; if (j > i + v.b && l[j][i] != 0) return false; } }
+    F.assign(v.cells.size(), 0); int t = 0; for (int i = 0; i < d; i++) for (int j = i; j < d && j <= i + v.b; j++, t++) F[t] = (int)(i == j ? dd[i] : l[j][i]);
+    return true;
+  }
+  static bool ien(char t, const std::vector<Val>& val, int i, int, int) {
+    const Val& v = val[i]; if (v.a == 0) return false; std::vector<int> F;
+    if (t == 'K') return ildl(v, F);
+    if (t == 'G') return v.b <= 1 || (v.b == 2 && v.a == 3 && v.cells[cidx(v, 0, 2)] == 0);
+    for (int k = 0; k < v.a; k++) if (v.cells[cidx(v, k, k)] == 0) return false;
+    return true;
+  }
+  static std::string solve_query(const BM& m, const Val& v) {
+    int d = v.a; Vec b(d); std::vector<LD> x(d); for (int k = 0; k < d; k++) { b(k + 1) = k + 1; x[k] = k + 1; }
+    m.solve(b);
+    auto u = [&](int r, int c) { return (c <= r + v.b) ? (LD)v.cells[cidx(v, r, c)] : (LD)0; };   // r <= c
+    for (int r = 0; r < d; r++) for (int c = 0; c < r; c++) x[r] -= u(c, r) * x[c];
+    for (int r = 0; r < d; r++) x[r] /= u(r, r);
+    for (int r = d - 1; r >= 0; r--) for (int c = r + 1; c < d; c++) x[r] -= u(r, c) * x[c];
+    for (int k = 0; k < d; k++) if (!(fabsl(x[k] - b(k + 1)) <= 1e-12L * std::max<LD>(1, fabsl(x[k])))) return "solve: x(" + std::to_string(k + 1) + ") = " + str(b(k + 1)) + " expected " + str((double)x[k]);
+    return "";
+  }
+  static void imodel(char t, std::vector<Val>& val, int i, int) { if (t == 'K') { std::vector<int> F; ildl(val[i], F); val[i].cells = F; } }
   static bool value_common(const BM& v, const Raw& r, int d, int b, int expect_sz, Val& out, std::string& why) {
     if (d < 0 || b < 0 || r.sz != expect_sz) { why = "dim " + std::to_string(d) + " band " + std::to_string(b) + " sz " + std::to_string(r.sz); return false; }
     if (r.sz > 0 && !r.nonnull) { why = "null data pointer with sz " + std::to_string(r.sz); return false; }
@@ -110,6 +228,9 @@ template <class BM, bool PAD> struct TrBand {
 };
 template <> struct Tr<CovMat> : TrBand<CovMat, false> {
   static const char* name() { return "CovMat"; }
+  static void setp(CovMat&, int, void*) {}
+  static const char* iops(bool inpl) { return inpl ? "KQ" : ""; }
+  static std::string iapply(char t, std::vector<CovMat*>& ob, int i, int, const std::vector<Val>& val) { if (t == 'K') { ob[i]->cholDec(); return ""; } return solve_query(*ob[i], val[i]); }
   static Raw snap(const CovMat& v) { Raw r; snap_mem(v, r); r.f = {v.row_, v.col_, v.band_, v.band_1, v.dim_b}; return r; }
   static CovMat* poke(const Raw& r) { CovMat* v = new CovMat(); poke_mem(v, r); v->row_ = r.f[0]; v->col_ = r.f[1]; v->band_ = r.f[2]; v->band_1 = r.f[3]; v->dim_b = r.f[4]; return v; }
   static bool value(const CovMat& v, const Raw& r, Val& out, std::string& why) {
@@ -121,7 +242,10 @@ template <> struct Tr<CovMat> : TrBand<CovMat, false> {
 };
 template <> struct Tr<BandMat> : TrBand<BandMat, true> {
   static const char* name() { return "BandMat"; }
-  static Raw snap(const BandMat& v) { Raw r; snap_mem(v, r); r.f = {v.row_, v.col_, v.band_}; return r; }
+  static void setp(BandMat& v, int, void* q) { v.addr_m_ = (double*)q; }
+  static const char* iops(bool inpl) { return inpl ? "KQG" : ""; }
+  static std::string iapply(char t, std::vector<BandMat*>& ob, int i, int, const std::vector<Val>& val) { if (t == 'K') { ob[i]->cholDec(); return ""; } if (t == 'G') { ob[i]->triDiag(); return ""; } return solve_query(*ob[i], val[i]); }
+  static Raw snap(const BandMat& v) { Raw r; snap_mem(v, r); r.f = {v.row_, v.col_, v.band_}; r.hp = {v.addr_m_}; return r; }
   static BandMat* poke(const Raw& r) { BandMat* v = new BandMat(); poke_mem(v, r); v->row_ = r.f[0]; v->col_ = r.f[1]; v->band_ = r.f[2]; return v; }
   static bool value(const BandMat& v, const Raw& r, Val& out, std::string& why) {
     int d = r.f[0], b = r.f[2];
@@ -133,7 +257,7 @@ template <> struct Tr<BandMat> : TrBand<BandMat, true> {
 struct Op { char t = 0; int i = 0, j = 0, k = 0, v = 0; };   // t: C copy-construct, X move-construct, A copy-assign, M move-assign, R reset(shape j)+set_zero, Z reset(), W write cell k := v
 static std::string opstr(const Op& o) {
   std::string s(1, o.t); s += std::to_string(o.i);
-  if (o.t == 'C' || o.t == 'X' || o.t == 'A' || o.t == 'M' || o.t == 'R') s += "." + std::to_string(o.j);
+  if (o.t == 'C' || o.t == 'X' || o.t == 'A' || o.t == 'M' || o.t == 'R' || o.t == 'P' || o.t == 'J') s += "." + std::to_string(o.j);
   if (o.t == 'R') s += "." + std::to_string(o.k);
   if (o.t == 'W') s += "." + std::to_string(o.k) + "." + std::to_string(o.v);
   return s;
@@ -147,9 +271,11 @@ static Op opparse(const std::string& s) {
   return o;
 }
 
+static std::function<std::string()> g_bfs_hist;   // history of the transition being executed (for the crash report of the unit)
 template <class T> struct Bfs {
   typedef Tr<T> R;
   int N; int lvl; int wlimit;   // objects, shape-menu level, number of writable cells per object (first/last/middle when limited)
+  bool inpl = false; int wmax = 1;   // in-place operations enabled; written values cycle through 0..wmax
   std::string uname;
   struct Node { std::vector<Raw> raw; std::vector<Val> val; int parent; Op op; int depth; };
   std::vector<Node> nodes;
@@ -167,6 +293,7 @@ template <class T> struct Bfs {
       for (int x : r.f) k += std::to_string(x) + ",";
       k += ":";
       for (double d : r.data) k += (d == 0 ? "0" : d == 1 ? "1" : "(" + str(d) + ")");
+      for (int x : r.hk) k += ":q" + std::to_string(x);
       k += "|";
     }
     return k;
@@ -186,12 +313,14 @@ template <class T> struct Bfs {
     for (char t : {'C', 'X', 'A', 'M'}) for (int i = 0; i < N; i++) for (int j = 0; j < N; j++) { Op o; o.t = t; o.i = i; o.j = j; ops.push_back(o); }
     for (int i = 0; i < N; i++) for (size_t s = 0; s < menu.size(); s++) { Op o; o.t = 'R'; o.i = i; o.j = menu[s].a; o.k = menu[s].b; ops.push_back(o); }
     for (int i = 0; i < N; i++) { Op o; o.t = 'Z'; o.i = i; ops.push_back(o); }
-    for (int i = 0; i < N; i++) for (int k : wcells(R::ncells(val[i]))) { Op o; o.t = 'W'; o.i = i; o.k = k; o.v = val[i].cells[k] ? 0 : 1; ops.push_back(o); }
+    for (int i = 0; i < N; i++) for (int k : wcells(R::ncells(val[i]))) { Op o; o.t = 'W'; o.i = i; o.k = k; int c = val[i].cells[k]; o.v = (c >= 0 && c <= wmax) ? (c + 1) % (wmax + 1) : 0; ops.push_back(o); }
+    for (const char* t = R::iops(inpl); *t; t++) for (int i = 0; i < N; i++) for (int j = 0; j < (R::ibin(*t) ? N : 1); j++) if (R::ien(*t, val, i, j, wmax)) { Op o; o.t = *t; o.i = i; o.j = j; ops.push_back(o); }
     return ops;
   }
   // the real operation
-  static void apply(std::vector<T*>& ob, const std::vector<Val>& val, const Op& o) {
+  static std::string apply(std::vector<T*>& ob, const std::vector<Val>& val, const Op& o) {
     switch (o.t) {
+      default: return R::iapply(o.t, ob, o.i, o.j, val);
       case 'C': { T* t = new T(*ob[o.j]); delete ob[o.i]; ob[o.i] = t; break; }
       case 'X': { T* t = new T(std::move(*ob[o.j])); delete ob[o.i]; ob[o.i] = t; break; }
       case 'A': { T& src = *ob[o.j]; *ob[o.i] = src; break; }
@@ -200,10 +329,12 @@ template <class T> struct Bfs {
       case 'Z': R::reset0(*ob[o.i]); break;
       case 'W': R::write(*ob[o.i], val[o.i], o.k, o.v); break;
     }
+    return "";
   }
   // the value model; for moves the source may afterwards be unchanged or empty: mark with a = -1 ("adopt what the implementation left, if valid")
   static void model(std::vector<Val>& val, const Op& o) {
     switch (o.t) {
+      default: R::imodel(o.t, val, o.i, o.j); break;
       case 'C': case 'A': val[o.i] = val[o.j]; break;
       case 'X': case 'M':
         if (o.i != o.j) { val[o.i] = val[o.j]; val[o.i].moved = false; val[o.j].moved = true; }
@@ -217,6 +348,7 @@ template <class T> struct Bfs {
   // compare implementation objects with the model; returns "" or the description of the first difference. Adopts moved-from values.
   std::string compare(std::vector<T*>& ob, std::vector<Raw>& raws, std::vector<Val>& val, std::string& cls) const {
     raws.clear(); for (int i = 0; i < N; i++) raws.push_back(R::snap(*ob[i]));
+    classify(raws);
     for (int i = 0; i < N; i++) for (int j = i + 1; j < N; j++) if (raws[i].nonnull && raws[i].rep == raws[j].rep) { cls = "shared-buffer"; return "objects " + std::to_string(i) + " and " + std::to_string(j) + " share their data pointer"; }
     for (int i = 0; i < N; i++) {
       Val got; std::string why;
@@ -239,7 +371,7 @@ template <class T> struct Bfs {
   void report(const std::string& cls, const Op& o, const std::string& hist, const std::string& detail) {
     static const char* on[128] = {0};
     on['C'] = "copy-construct"; on['X'] = "move-construct"; on['A'] = "copy-assign"; on['M'] = "move-assign"; on['R'] = "reset(n)"; on['Z'] = "reset()"; on['W'] = "write";
-    std::string opn = on[(int)o.t]; if ((o.t == 'A' || o.t == 'M') && o.i == o.j) opn = std::string("self-") + opn;
+    std::string opn = on[(int)o.t] ? on[(int)o.t] : R::iname(o.t); if ((o.t == 'A' || o.t == 'M') && o.i == o.j) opn = std::string("self-") + opn;
     V("C15|copy|" + std::string(R::name()) + "|" + opn + "|" + cls, uname + "#0#" + hist + " :: history of " + std::to_string(N) + " " + R::name() + " objects", detail);
     if (ctx().verbose) printf("# VIOLATION copy|%s|%s|%s: %s\n", R::name(), opn.c_str(), cls.c_str(), detail.c_str());
   }
@@ -247,10 +379,12 @@ template <class T> struct Bfs {
   void run() {
     std::vector<T*> ob; for (int i = 0; i < N; i++) ob.push_back(R::fresh());
     Node n0; for (int i = 0; i < N; i++) { n0.raw.push_back(R::snap(*ob[i])); n0.val.push_back(R::zero(Shape{0, 0})); }
+    classify(n0.raw);
     for (auto p : ob) delete p;
     n0.parent = -1; n0.depth = 0; nodes.push_back(n0); index[key(n0.raw)] = 0;
     std::deque<int> q; q.push_back(0);
     int maxdepth = 0; long long nviol = 0;
+    g_bfs_hist = [this]() { return cur_node >= 0 ? history((int)cur_node, &cur_op) : std::string(); };
     while (!q.empty()) {
       if (expired()) break;
       int n = q.front(); q.pop_front();
@@ -259,13 +393,15 @@ template <class T> struct Bfs {
       for (const Op& o : ops) {
         cur_op = o;
         std::vector<T*> obj; for (int i = 0; i < N; i++) obj.push_back(R::poke(nodes[n].raw[i]));
+        for (int i = 0; i < N; i++) for (size_t h = 0; h < nodes[n].raw[i].hk.size(); h++) { int kd = nodes[n].raw[i].hk[h]; R::setp(*obj[i], (int)h, kd == 0 ? nullptr : (kd == 1 ? (void*)obj[i]->rep : (kd == 9 ? (void*)dangling() : (void*)obj[kd - 2]->rep))); }
         std::vector<Val> val = nodes[n].val;
-        std::string exc;
-        try { apply(obj, val, o); } catch (const Exc& e) { exc = e.what(); }
+        std::string exc, qdiff;
+        try { qdiff = apply(obj, val, o); } catch (const Exc& e) { exc = e.what(); }
         C("transitions"); C("evaluations");
         model(val, o);
         std::vector<Raw> raws; std::string cls, diff;
         if (!exc.empty()) { cls = "unexpected-exception"; diff = exc; }
+        else if (!qdiff.empty()) { cls = "wrong-answer"; diff = qdiff; }
         else diff = compare(obj, raws, val, cls);
         if (!diff.empty()) {
           nviol++; report(cls, o, history(n, &o), diff);
@@ -284,8 +420,9 @@ template <class T> struct Bfs {
       }
     }
     C("states");   // the initial state
+    g_bfs_hist = nullptr;
     bool fix = q.empty();
-    O(std::string("bfs:") + R::name() + ":N=" + std::to_string(N) + (fix ? ":fixpoint" : ":deadline") + ":depth=" + std::to_string(maxdepth) + ":states=" + std::to_string(nodes.size()));
+    O(std::string("bfs:") + R::name() + (inpl ? "+inplace" : "") + ":N=" + std::to_string(N) + (fix ? ":fixpoint" : ":deadline") + ":depth=" + std::to_string(maxdepth) + ":states=" + std::to_string(nodes.size()));
     if (!fix) ctx().complete = false;
     // trace validation: replay the recorded history of every state with real operations only
     long long traces = 0;
@@ -307,13 +444,14 @@ template <class T> struct Bfs {
       if (s.empty()) continue;
       Op o = opparse(s);
       if (o.t == 'W' && (o.k >= R::ncells(val[o.i]))) { if (verbose) printf("# %s: write outside the object, history not applicable\n", s.c_str()); break; }
-      std::string exc; try { apply(ob, val, o); } catch (const Exc& e) { exc = e.what(); }
+      if (strchr("CXAMRZW", o.t) == nullptr && !R::ien(o.t, val, o.i, o.j, wmax)) { if (verbose) printf("# %s: operation not enabled in this state, history not applicable\n", s.c_str()); break; }
+      std::string exc, qdiff; try { qdiff = apply(ob, val, o); } catch (const Exc& e) { exc = e.what(); }
       model(val, o);
-      std::string cls, diff; if (!exc.empty()) { cls = "unexpected-exception"; diff = exc; } else diff = compare(ob, raws, val, cls);
+      std::string cls, diff; if (!exc.empty()) { cls = "unexpected-exception"; diff = exc; } else if (!qdiff.empty()) { cls = "wrong-answer"; diff = qdiff; } else diff = compare(ob, raws, val, cls);
       if (verbose) printf("# %-8s -> %s %s\n", s.c_str(), key(raws).c_str(), diff.empty() ? "ok" : ("VIOLATION " + cls + ": " + diff).c_str());
       if (!diff.empty()) { if (verbose) report(cls, o, hist, diff); dead = (cls == "shared-buffer" || cls == "inconsistent-fields"); break; }
     }
-    if (raws.empty()) for (int i = 0; i < N; i++) raws.push_back(R::snap(*ob[i]));
+    if (raws.empty()) { for (int i = 0; i < N; i++) raws.push_back(R::snap(*ob[i])); classify(raws); }
     std::string k = key(raws);
     if (!dead) for (auto p : ob) delete p;
     return k;
